@@ -34,7 +34,7 @@ CFG = {
                   "Where the Rust code branches on a parsed f64 (finite / zero / sign) the model classifies the literal's exact "
                   "decimal against the binary64 round-to-nearest-even boundaries (Model/NumFmt.classify); this stand-in for core's "
                   "parser is checked by the correspondence on every run, not proved. Literals are quantified generatively "
-                  "(Spec/Dec.Lit); the boolean recogniser isJsonNumber is proved complete for them (isJsonNumber_text), not conversely.",
+                  "(Spec/Dec.Lit); the boolean recogniser isJsonNumber accepts exactly the strict ones (json_number_grammar_iff).",
     "technique": "Lean 4 proof over a string-level model; differential correspondence vs compiled model with an "
                  "implementation-side parse-back oracle (Rust parse::<f64> bit patterns) in every answer line",
     "variants": [{"features": []}],
@@ -44,7 +44,7 @@ CFG = {
     "generated": ["C10:"],
     "required_theorems": ["SV.Props.C10.i64_print_exact", "SV.Props.C10.with_fraction_value_preserving",
                           "SV.Props.C10.jq_literal_value_preserving_partial", "SV.Props.C10.jq_literal_cap_truncates",
-                          "SV.Props.C10.yq_reformat_value_preserving", "SV.Props.C10.jq_literal_value_preserving"],
+                          "SV.Props.C10.yq_reformat_value_preserving", "SV.Props.C10.jq_literal_value_preserving", "SV.Props.C10.json_number_grammar_iff"],
     "nontrivial": _c10_nontrivial,
     "rule": "request = one number through one printer route (i64 | wf/yq: a double given by its bits + the two core "
             "strings | lit/fnb: a literal | norm: normalize_extreme_literal_mantissa with a cap | tag: resolve_plain kind); "
